@@ -154,9 +154,15 @@ class Ref(object):
                     raise RefError('value too large')
                 return v
             if op == '/':
-                if r == 0 or l % r != 0:
-                    raise RefError('division not exact')
-                return l // r
+                if r == 0:
+                    raise RefError('division by zero')
+                if isinstance(l, float) or isinstance(r, float):
+                    return l / r
+                # integer operands: the integer quotient, truncated towards zero
+                q = abs(l) // abs(r)
+                if l % r != 0:
+                    self.events['inexact-integer-division'] = self.events.get('inexact-integer-division', 0) + 1
+                return q if (l < 0) == (r < 0) else -q
             if op == '%':
                 if r <= 0 or l < 0:
                     raise RefError('modulo outside the defined domain')
